@@ -1,3 +1,5 @@
+* history generator, thorough tier: as LFRicSched_dump.cfg plus `acc loop`
+\* without the independent clause
 CONSTANTS MaxLen = 0
  MaxLen2 = 0
  MaxKern = 2
